@@ -410,10 +410,10 @@ def run_impl(c):
         M = np.array(c['M'], dtype=np.int64).reshape(c['R'], c['C'])
         offs = [o for o, _ in spatial.compute_tile_positions_per_frame(
             c['th'], c['tw'], c['R'], c['C'], (0.0, 0.0, 0.0), (1, 0, 0, 0, 1, 0), (1.0, 1.0))]
-        a = [[[co, ro], spatial.get_tile_array(M, ro, co, c['th'], c['tw'], pad=c['pad']).tolist()] for co, ro in offs]
-        b = [[[(ci - 1) * c['tw'] + 1, (ri - 1) * c['th'] + 1],
-              spatial.get_tile_array(M, (ri - 1) * c['th'] + 1, (ci - 1) * c['tw'] + 1, c['th'], c['tw'],
-                                     pad=c['pad']).tolist()]
+        def cut(ro, co):
+            return catch(lambda: spatial.get_tile_array(M, ro, co, c['th'], c['tw'], pad=c['pad']).tolist())
+        a = [[[co, ro], cut(ro, co)] for co, ro in offs]
+        b = [[[(ci - 1) * c['tw'] + 1, (ri - 1) * c['th'] + 1], cut((ri - 1) * c['th'] + 1, (ci - 1) * c['tw'] + 1)]
              for ci, ri in spatial.tile_pixel_matrix(c['R'], c['C'], c['th'], c['tw'])]
         return [a, b]
     raise ValueError(k)
@@ -445,7 +445,8 @@ def coq_term(c):
                 f"{qlit(F(c['spr']))} {qlit(F(c['spc']))} {sl})")
     if k == 'tiled_full':
         ps = '[' + '; '.join(f'({zlit(r)}, {zlit(cc)})' for r, cc in c['ps']) + ']'
-        return f"(run_tiled_full {ps} {zlit(c['th'])} {zlit(c['tw'])})"
+        # the statement-by-statement model (proved equal to the abstract one: C12_tiled_full_code_refines)
+        return f"(run_tiled_full_code {ps} {zlit(c['th'])} {zlit(c['tw'])})"
     if k in ('tile_array', 'tile_array_err'):
         return (f"(run_tile_array {zll(c['M'])} {zlit(c['R'])} {zlit(c['C'])} {zlit(c['ro'])} {zlit(c['co'])} "
                 f"{zlit(c['th'])} {zlit(c['tw'])} {'true' if c['pad'] else 'false'})")
@@ -695,6 +696,8 @@ def oracle(c, out):
             buf = [[0] * C for _ in range(R)]
             hits = [[0] * C for _ in range(R)]
             for (co, ro), T in tiles:
+                if isinstance(T, Err):
+                    return f'{name}: the tile at grid offset {(co, ro)} cannot be cut: {T}'
                 nr = th if c['pad'] else min(th, R - ro + 1)
                 nc = tw if c['pad'] else min(tw, C - co + 1)
                 if len(T) != nr or any(len(r) != nc for r in T):
